@@ -335,6 +335,16 @@ theorem stop_reads_at_most_cut (X : StopStage ι ο σ) (xs : List ι) (K : Nat)
   have h0 : X.base.start.nread = 0 := rfl
   omega
 
+/-- **C02.7b'** (non-interference for stopping stages) when the stage leaves its loop before the
+source ends, any other source with the same items in front of the exit point — continuing
+differently, ending there, raising there — gives the same outputs, the same failures and the same
+pull counters, at every request including those past the end. -/
+theorem stop_nonInterference (X : StopStage ι ο σ) (xs ys : List ι) (K : Nat)
+    (hcut : X.cut xs < xs.length) (hagree : xs.take (X.cut xs) = ys.take (X.cut xs)) :
+    X.probe ys K = X.probe xs K := by
+  have hc : X.cut ys = X.cut xs := StopStage.cutFrom_congr X xs ys _ hcut hagree
+  rw [← stop_truncates X ys, ← stop_truncates X xs, hc, hagree]
+
 /-- **C02.7c** (asked past the end, any number of times) once a request has failed, every further
 request fails and the pull counter stays where it was: a finished stage never touches its source
 again.  `c` is any configuration the stage is in. -/
@@ -371,6 +381,24 @@ theorem need_limit (N : Nat) (xs : List α) (K k : Nat) (hk : k < K) (hN : N ≤
   simp only [Option.map_some, needLimit]
   have : min N xs.length = N := by omega
   rw [this]
+
+/-- **C02.7e'** `takewhile(pred, seq)` whose predicate holds for the first `n` items: the failing
+item is read (request `n+1` fails having read `n+1` items) and nothing after it, however often the
+stage is asked — the closed form `needTakewhile` of the spec. -/
+theorem takewhile_probe (n : Nat) (xs : List α) (K : Nat) :
+    (takewhileX n).probe xs K =
+      (List.range K).map (fun k => (decide (k < min n xs.length), min (k + 1) (min (n + 1) xs.length))) := by
+  have := probeFrom_takewhileX (α := α) n K 0 0 xs (Nat.zero_le n)
+  simp only [Nat.zero_add, Nat.sub_zero] at this
+  exact this
+
+theorem need_takewhile (n : Nat) (xs : List α) (K k : Nat) (hk : k < K) (hn : n + 1 ≤ xs.length) :
+    ((takewhileX n).probe xs K)[k]? = some (decide (k < n), needTakewhile n (k + 1)) := by
+  rw [takewhile_probe, List.getElem?_map, List.getElem?_range hk]
+  simp only [Option.map_some, needTakewhile]
+  have h1 : min n xs.length = n := by omega
+  have h2 : min (n + 1) xs.length = n + 1 := by omega
+  rw [h1, h2]
 
 /-- **C02.7f** a stage `S` followed by `limit(c)` reads exactly what `S` needs for `c` outputs, and
 (7b) never more, however often it is asked. -/
@@ -443,6 +471,9 @@ example : (blocksS 2 1 0).need [1, 2, 3, 99] 2 = some 3 ∧
 example : (limitX 3).probe [10, 20, 30, 40, 50] 6 =
     [(true, 1), (true, 2), (true, 3), (false, 3), (false, 3), (false, 3)] := by
   rw [limit_probe]; decide
+/-- non-interference instantiated: a source that would raise (here: differs) right after the limit -/
+example : (limitX 3).probe [10, 20, 30, 99] 5 = (limitX 3).probe [10, 20, 30, 40, 50] 5 :=
+  stop_nonInterference (limitX 3) [10, 20, 30, 40, 50] [10, 20, 30, 99] 5 (by decide) (by decide)
 example : (limitX 3).cut [10, 20, 30, 40, 50] = 3 ∧ (limitX 0).cut [10, 20] = 0 := by decide
 /-- `takewhile` reads the failing item, `islice(0, 6, 2)` reads up to its stop, not further -/
 example : (takewhileX 2).probe [1, 2, 3, 4, 5] 5 =
